@@ -60,6 +60,49 @@ class Param:
         return '%s:%s' % (s.name, s.dty)
 
 
+# Canonical parameter names by POSITION for routines whose harness refers to particular parameters (sizes, buffers): the checks
+# must not depend on how the source happens to spell a parameter name.  {regex on the demangled name: [names in order]}
+CANON = [
+    (r'^PoseidonGoldilocks::linear_hash(_seq|_avx512)?\(', ['output', 'input', 'size']),
+    (r'^PoseidonGoldilocks::hash(_seq|_avx512)?\(', ['state', 'input']),
+    (r'^PoseidonGoldilocks::merkletree(_seq|_avx|_avx512)?\(', ['tree', 'input', 'num_cols', 'num_rows', 'nThreads', 'dim']),
+    (r'^PoseidonGoldilocks::merkletree_batch(_seq|_avx|_avx512)?\(', ['tree', 'input', 'num_cols', 'num_rows', 'batch_size', 'nThreads', 'dim']),
+    (r'^MerklehashGoldilocks::getTreeNumElements\(', ['degree']),
+    (r'^MerklehashGoldilocks::root\(', ['root', 'tree', 'numElementsTree']),
+    (r'^Goldilocks::parcpy\(', ['dst', 'src', 'size', 'num_threads_copy']),
+    (r'^Goldilocks::parSetZero\(', ['dst', 'size', 'num_threads_copy']),
+    (r'^Goldilocks3::batchInverse\(', ['res', 'src', 'size']),
+    (r'^Goldilocks::batchInverse\(', ['res', 'src', 'size']),
+    (r'^Goldilocks3::inv\(', ['result', 'a']),
+    (r'^Goldilocks3::isOne\(', ['result']),
+]
+_CANON_RE = None
+_PINNED = None
+
+
+def canonical_names(dem, n):
+    """parameter names by position: (1) the names the routine with exactly this demangled signature (its types identify the
+    overload) has on the pinned tree - glv/specs/pinned_param_names.json, generated once from the pinned tree: the role grammars of
+    C16/C17 and the harnesses read roles off these names, so renaming a parameter in the source changes nothing here;
+    (2) the CANON patterns; (3) None = the names in the source (a routine the pinned tree does not have)"""
+    global _CANON_RE, _PINNED
+    if _PINNED is None:
+        import json, os
+        try:
+            _PINNED = json.load(open(os.path.join(os.path.dirname(__file__), 'specs', 'pinned_param_names.json')))
+        except (OSError, ValueError):
+            _PINNED = {}
+    ns = _PINNED.get(dem)
+    if ns is not None and len(ns) == n:
+        return ns
+    if _CANON_RE is None:
+        _CANON_RE = [(re.compile(p), ns) for p, ns in CANON]
+    for rx, ns in _CANON_RE:
+        if rx.search(dem) and len(ns) == n:
+            return ns
+    return None
+
+
 def describe(mod, name):
     """[Param] for a function: IR names/types joined with demangled source types"""
     fn = mod.funcs[name]
@@ -72,10 +115,13 @@ def describe(mod, name):
     if len(ps) != len(dts):
         # sret / split aggregates: not expected for the routines analysed through the harness
         raise Incomplete('parameter list of %s does not match its demangled signature' % mod.dem[name])
-    for (t, pn), dt in zip(ps, dts):
+    canon = canonical_names(mod.dem[name], len(dts))
+    for k, ((t, pn), dt) in enumerate(zip(ps, dts)):
         nm = pn[1:] if pn else '_'
         if nm.endswith('.coerce'):
             nm = nm[:-7]
+        if canon:
+            nm = canon[k]
         out.append(Param(nm, t, dt))
     return out
 
